@@ -60,6 +60,19 @@ def perf_grid(best, n=41):
 
 
 def work(chunk):
+    """both table years are visited in one process (in the order given) so that state shared between the graders shows"""
+    years, g, rows = chunk
+    packs = [work_year((y, g, rows)) for y in years]
+    out = packs[0]
+    for p in packs[1:]:
+        out['n'] += p['n']; out['nontrivial'] += p['nontrivial']; out['nviol'] += p['nviol']
+        out['viol'] += p['viol']; out['samples'] += p['samples']
+        for k, v in p['extra'].items():
+            out['extra'][k] = out['extra'].get(k, 0) + v
+    return out
+
+
+def work_year(chunk):
     year, g, rows = chunk
     G = setup()
     a = G['athlib']
@@ -213,11 +226,13 @@ def run(tier):
     rep = Report(PID, tier, 'exploration')
     G = setup()
     chunks = []
-    for y in (2015, 2023):
-        for g in 'mf':
-            n = len(G['tab'][y][g])
-            for i in range(0, n, 3):
-                chunks.append((y, g, list(range(i, min(n, i + 3)))))
+    for g in 'mf':
+        n = min(len(G['tab'][2015][g]), len(G['tab'][2023][g]))
+        for j, i in enumerate(range(0, n, 3)):
+            chunks.append(((2015, 2023) if j % 2 == 0 else (2023, 2015), g, list(range(i, min(n, i + 3)))))
+        for y in (2015, 2023):
+            if len(G['tab'][y][g]) > n:
+                chunks.append(((y,), g, list(range(n, len(G['tab'][y][g])))))
     merge(rep, pmap(work, chunks), part='single-event tables 2015 and 2023')
     merge(rep, pmap(athlon_work, [('m',), ('f',)]), part='combined-events table')
     c = rep.coverage
